@@ -536,11 +536,20 @@ def _nums(rng, n, mode):
         return [rng.getrandbits(256) for _ in range(n)]
     if mode == "ties":
         return [rng.randint(0, max(1, n // 2)) for _ in range(n)]
+    if mode == "close":
+        # distinct numbers of SHA-256 size that agree in their leading bits (they differ far below the 53 bits a double
+        # keeps): one or two clusters `base + small offset`; the exact integer order is the only order there is
+        offs = rng.sample(range(0, 3 * n + 3), n)
+        bases = [rng.choice([1 << 255, (1 << 255) + rng.getrandbits(200), rng.getrandbits(256) | (1 << 250),
+                             1 << rng.randint(54, 120)])]
+        if rng.chance(0.4):
+            bases.append(bases[0] + (1 << rng.randint(8, 40)))
+        return [rng.choice(bases) + o for o in offs]
     raise ValueError(mode)
 
 
 def _cards(rng, n, cids, mode=None):
-    mode = mode or rng.choice(["small", "small", "big", "pos"])
+    mode = mode or rng.choice(["small", "small", "big", "pos", "close"])
     nums = _nums(rng, n, mode)
     if mode == "big" and len(set(nums)) < n:
         nums = _nums(rng, n, "small")
@@ -643,7 +652,7 @@ def gen_cs(rng):
     n = rng.choice([1, 2, 3, 5, 8, 12])
     ncon = rng.randint(1, 4)
     cids = CIDS[:ncon]
-    cards = _cards(rng, n, cids, rng.choice(["small", "pos", "ties"]))
+    cards = _cards(rng, n, cids, rng.choice(["small", "pos", "ties", "close"]))
     cons = []
     for c in cids:
         a = _avail(cards, c)
